@@ -76,8 +76,22 @@ def main(argv=None) -> int:
         chk = engine.coqchk_property(pid)
         for p in chk["problems"]:
             broken.append({"kind": "proof-obligation", "what": p})
-    model_usable = not any(f.startswith("Model/") or f.startswith("Base/") or f.startswith("Spec/") or f.startswith("Gen/")
-                           for f in bstat.get("failed", []))
+    # an op's model is usable iff nothing in the dependency closure of the modules it imports failed to build (a failure elsewhere in
+    # the project - another property's regenerated file, say - must neither stop this op nor let it be skipped silently)
+    failed_files = set(bstat.get("failed", []))
+    _closures = {}
+
+    def unusable_because(op):
+        if not failed_files:
+            return []
+        need = set()
+        for imp in getattr(op, "imports", []):
+            if imp.startswith("PX."):
+                rel = imp[3:].replace(".", "/")
+                if rel not in _closures:
+                    _closures[rel] = engine.deps_closure(rel)
+                need |= _closures[rel]
+        return sorted(failed_files & need)
 
     # -- 3: correspondence -------------------------------------------------------------------------
     corr = {}
@@ -99,8 +113,10 @@ def main(argv=None) -> int:
                 distinct_keys.add((op.name, c["coq"]))
         if cases:
             samples.append({"op": op.name, "input": cases[0]["desc"], "result": cases[0]["expected"][:300]})
-        if not model_usable and not getattr(op, "python_only", False):
-            corr[op.name] = {"cases": len(cases), "skipped": "model does not build"}
+        bad = unusable_because(op)
+        if bad and not getattr(op, "python_only", False):
+            corr[op.name] = {"cases": len(cases), "skipped": "model does not build: " + ", ".join(bad)}
+            broken.append({"kind": "correspondence", "op": op.name, "what": f"the model this op runs does not build ({', '.join(bad)}): model and implementation could not be compared"})
             continue
         res = engine.coq_mismatches(op.imports, op.fn, op.in_ty, [(c["coq"], c["expected"]) for c in cases],
                                     f"{pid}_{op.name}".replace(".", "_"))
